@@ -270,7 +270,7 @@ func (g *gen) unionDef() *Def {
 		} else {
 			bd = g.messageDef(g.nm.fresh(true), false)
 		}
-		d.Branches = append(d.Branches, Branch{Disc: disc, Def: bd})
+		d.Branches = append(d.Branches, Branch{Disc: disc, Def: bd, Deprecated: g.r.Chance(1, 6)})
 	}
 	g.unions = g.unions[:len(g.unions)-1]
 	// sort by discriminator
